@@ -45,6 +45,13 @@ Branches found in the code beyond the DESIGN alphabet:
   "axisfam", both tiers) forms theta in {+-90, +-270, 0, 180} x a menu of 10 phi (multiples of 90 and generic) x
   psi {generic, 0, 90} x {no jitter, phi jitter}.  A non-finite kernel value where the reference is finite is
   reported as such (clause ":non-finite"), never left to a comparison of differences.
+* every built-in jitter distribution is symmetric about zero, which hides dphi -> -dphi (a sign in the jitter
+  matrix): family "asymfam" (both tiers, all 21 models) feeds one-sided, unequally weighted explicit meshes
+  {0, +-15, +-30} through make_kernel_args (what an array dispersion or a user distribution class supplies), every
+  sign pattern over theta / phi / theta+phi / psi / all three, judged by the same rotation-formula reference;
+* the parameter limits are applied to the zero-centred jitter values: kind "limits" requires the limits of every
+  orientation parameter to be symmetric about zero and to contain [-180, 180] (the unchanged tree has [-360, 360]
+  everywhere), and a built-in mesh whose mean is not zero after the cut is a violation ("jitter-mesh-not-centred").
 An EMPTY angle mesh (e.g. rectangle, npts=2, nsigmas=3) is not a mesh of jitter angles and is not
 enumerated.
 """
@@ -99,6 +106,9 @@ CASE_TIMEOUT = 900
 CUTOFF_TAILS = (0.0213, 0.0187, 0.0231, 0.0173, 0.0247, 0.0199, 0.0223, 0.0161)
 # cutoff family (both tiers, full product): jitter angle sets x jitter meshes x size meshes x cutoffs
 # axis family (both tiers, full product): special theta x phi menu (multiples of 90 and generic) x psi menu x phi jitter
+# asymmetric jitter family (both tiers): explicit meshes {0, +d, +2d} with unequal weights and their mirror images
+ASYM_STEP = 15.0
+ASYM_WEIGHTS = [0.5, 0.3, 0.2]
 AXIS_THETAS = [90.0, -90.0, 270.0, -270.0, 0.0, 180.0]
 CUTFAM_JITTER = [["gaussian", 3, 40.0], ["gaussian", 5, 5.0]]
 CUTFAM_SIZE = [["first", "gaussian", 9, 0.15], ["first", "gaussian", 35, 0.15], ["first", "gaussian", 3, 0.15],
@@ -249,6 +259,9 @@ def cases(ctx):
             angle_sets += [["psi"], ["theta", "phi", "psi"]]
         for th in AXIS_THETAS:
             out.append({"kind": "axisfam", "model": m, "theta": th})
+        out.append({"kind": "limits", "model": m})
+        for aset in angle_sets:
+            out.append({"kind": "asymfam", "model": m, "angles": aset})
         for aset in angle_sets:
             for jspec in CUTFAM_JITTER:
                 for sspec in CUTFAM_SIZE:
@@ -282,6 +295,11 @@ def jitter_mesh(spec, limits):
     cut by the parameter limits, weighted by the density; returns (values, weights, nsigmas)"""
     if spec is None:
         return np.array([0.0]), np.array([1.0]), 3.0
+    if spec[0] == "array":
+        # an explicit (tabulated / user-defined) jitter distribution: values and weights as given, cut by the limits
+        x, w = np.asarray(spec[1], float), np.asarray(spec[2], float)
+        keep = (x >= limits[0]) & (x <= limits[1])
+        return x[keep], w[keep] / w[keep].sum(), 3.0
     t, n, width = spec
     nsig = 1.73205 if t == "rectangle" else 3.0
     if n < 2:
@@ -377,7 +395,9 @@ def reference(sh, info, pars, view, jit, size, Q, cutoff=0.0):
 
 def run_case(case, ctx):
     kind = case["kind"]
-    if kind in ("orient", "cutfam", "axisfam"):
+    if kind == "limits":
+        return _run_limits(case, ctx)
+    if kind in ("orient", "cutfam", "axisfam", "asymfam"):
         return _run_orient(case, ctx)
     if kind == "oned":
         return _run_oned(case, ctx)
@@ -400,6 +420,41 @@ def _clause(cfg):
     if cfg["cutoff"] > 0:
         c += "/cutoff"
     return c
+
+
+def _call_with_arrays(kernel, info, pars, arrays, cutoff):
+    """call_kernel with explicit (values, weights) meshes for some angles: exactly direct_model.call_kernel, except that
+    the mesh entries of those parameters are the given arrays (as an array dispersion / user distribution supplies)"""
+    from sasmodels.direct_model import get_mesh
+    from sasmodels.details import make_kernel_args
+    mesh = get_mesh(info, pars, dim="2d")
+    names = [p.name for p in info.parameters.call_parameters]
+    for ang, (x, w) in arrays.items():
+        i = names.index(ang)
+        mesh[i] = (mesh[i][0], x.copy(), w.copy())
+    call_details, values, is_magnetic = make_kernel_args(kernel, mesh)
+    return kernel(call_details, values, cutoff, is_magnetic)
+
+
+def _run_limits(case, ctx):
+    """table-level clause: the limits of every orientation parameter admit a jitter range that is symmetric about zero.
+    On the unchanged tree every orientation parameter of all 21 oriented models has limits [-360, 360]; the limits are
+    applied to the zero-centred JITTER values, so an interval that is not symmetric about zero, or that does not
+    contain the documented jitter range [-180, 180], moves the centre of every wide enough mesh away from zero."""
+    r = R()
+    name = case["model"]
+    info = build.info(name)
+    for p in info.parameters.kernel_parameters:
+        if p.type != "orientation":
+            continue
+        lo, hi = p.limits
+        if not (lo <= -180.0 and hi >= 180.0 and lo == -hi):
+            r.fail("%s: orientation parameter %s has limits [%g, %g]; they are applied to the jitter values (centred on "
+                   "zero), so they must be symmetric about zero and contain [-180, 180]" % (name, p.name, lo, hi),
+                   {"model": name, "clause": "orientation-limits", "angle": p.name})
+        else:
+            r.ok(nt=True, outcome="limits-symmetric", branches=["orientation-limits"])
+    return r
 
 
 def _run_orient(case, ctx):
@@ -432,7 +487,15 @@ def _run_orient(case, ctx):
     dims = case.get("dims", [])
     sld_names = [p.name for p in info.parameters.kernel_parameters if p.type == "sld"]
     todo = []
-    if case["kind"] == "axisfam":
+    if case["kind"] == "asymfam":
+        # one-sided, unequally weighted explicit meshes and their mirror images, every sign pattern over the angle set
+        d = ASYM_STEP
+        for signs in itertools.product((1.0, -1.0), repeat=len(case["angles"])):
+            cfg = dict(base)
+            for a, sg in zip(case["angles"], signs):
+                cfg["j" + a] = ["array", [0.0, sg * d, sg * 2 * d], ASYM_WEIGHTS]
+            todo.append((cfg, {"angles": case["angles"], "signs": list(signs)}))
+    elif case["kind"] == "axisfam":
         # special theta x phi menu x psi menu x {no jitter, phi jitter with a central mesh point}: full product
         phis = [0.0, 90.0, 180.0, 270.0] + [_gen(ctx, "phi", k) for k in range(4)] + [_gen(ctx, "neg", k) for k in (1, 2)]
         psis = [base["psi"], 0.0, 90.0] if asym else [base["psi"]]
@@ -462,12 +525,26 @@ def _run_orient(case, ctx):
         ref_pars = dict(pars)
         jit = []
         br = []
+        arrays = {}
+        off_centre = False
         for ang in ("theta", "phi", "psi"):
             spec = cfg["j" + ang] if (asym or ang != "psi") else None
             par = par_by_name(info, ang) if spec else None
             x, w, nsig = jitter_mesh(spec, par.limits if par else (-360.0, 360.0))
             jit.append((x, w))
-            if spec:
+            if spec and spec[0] == "array":
+                # fed to the kernel as an explicit mesh (what an array dispersion / a user distribution class produces)
+                arrays[ang] = (np.asarray(spec[1], float), np.asarray(spec[2], float))
+                br.append("jitter-asymmetric:" + ang)
+            elif spec:
+                if len(x) and abs(float(np.dot(x, w))) > 1e-9 * max(1.0, float(np.max(np.abs(x)))):
+                    # every built-in distribution is symmetric about its centre: a mesh whose mean is not zero has
+                    # been cut on one side by the parameter limits, i.e. it is no longer "centred on zero"
+                    lim = par.limits
+                    r.fail("%s: the %s jitter mesh %s (limits %r) is not centred on zero: values %s"
+                           % (name, ang, spec, lim, x), {"model": name, "clause": "jitter-mesh-not-centred", "angle": ang},
+                           sub, branches=br)
+                    off_centre = True
                 t, n, width = spec
                 pars.update({ang + "_pd": width, ang + "_pd_n": n, ang + "_pd_type": t, ang + "_pd_nsigma": nsig})
                 br.append("jitter:" + ang if n > 1 else "jitter-single-point:" + ang)
@@ -475,6 +552,8 @@ def _run_orient(case, ctx):
                     br.append("jitter-truncated-by-limits")
                 if np.any(np.abs(x) > 90.0) and ang == "theta":
                     br.append("cos(dtheta)<0")
+        if off_centre:
+            continue
         njit = sum(1 for k in ("jtheta", "jphi", "jpsi") if cfg[k])
         size = None
         if cfg["size"]:
@@ -527,8 +606,12 @@ def _run_orient(case, ctx):
                 br.append("cutoff-excluded:" + ("size-loop-innermost" if slen > jlen else
                                                 "jitter-loop-innermost" if jlen > slen else "equal-lengths"))
         try:
-            A = np.array(call_kernel(k1, pars, cutoff=cfg["cutoff"]), float)
-            B = np.array(call_kernel(k2, dict(pars, phi=pars["phi"] + alpha), cutoff=cfg["cutoff"]), float)
+            if arrays:
+                A = np.array(_call_with_arrays(k1, info, pars, arrays, cfg["cutoff"]), float)
+                B = np.array(_call_with_arrays(k2, info, dict(pars, phi=pars["phi"] + alpha), arrays, cfg["cutoff"]), float)
+            else:
+                A = np.array(call_kernel(k1, pars, cutoff=cfg["cutoff"]), float)
+                B = np.array(call_kernel(k2, dict(pars, phi=pars["phi"] + alpha), cutoff=cfg["cutoff"]), float)
         except Exception as exc:  # noqa
             r.fail("%s... raised %r" % (desc, exc), dict(fk, clause=fk["clause"] + ":raises"), sub, branches=br)
             continue
@@ -745,6 +828,9 @@ def finish(ctx, report):
     report.require("cutoff-excluded:jitter-loop-innermost", 100, "cutoff dropped >=1 point of a jittered mesh, jitter loop innermost")
     report.require("magnetic-kernel", 100, "Imagnetic instantiation")
     report.require("theta-pole", 100, "theta = 0 / 180")
+    report.require("orientation-limits", 51, "orientation parameters whose limits were examined")
+    for a in ("theta", "phi", "psi"):
+        report.require("jitter-asymmetric:" + a, 40, "explicit jitter mesh not symmetric about zero in " + a)
     report.require("on-axis-detector-points", 1000, "detector points on the projected particle axes")
     report.require("axis-in-detector-plane", 300, "symmetry axis exactly in the detector plane, detector points on it")
     report.require("axis-in-detector-plane:phi-jitter", 300, "the same with phi jitter (central mesh point on the axis)")
